@@ -79,4 +79,4 @@ Proof. vm_compute. reflexivity. Qed.
                           "free-threaded builds are runtime behaviour the model does not exhibit",
                           "__init__ may run twice on one object (idempotent attribute stores); not part of the property"])
 
-main()
+guarded(main, "C20")
